@@ -84,3 +84,18 @@ Example C12_ex :
   | Ok s => map (fun m => string_of_list_ascii (m_name m)) (sel s) | _ => [] end
   = ["app"; "a"; "p1"; "c"; "d"; "context::b1"; "ctxmod"; "context::default"].
 Proof. vm_compute. reflexivity. Qed.
+
+(* The fuel of the model's resolver is not part of its meaning: more fuel never changes an answer that is not
+   "out of fuel", two sufficient amounts give one answer, and for a loaded project every amount from the model's
+   bound on gives the answer of resolve_build, which is a proper one (selection or refusal). *)
+Require Import Laze.model.Load Laze.proofs.ResolverFuel.
+Theorem C12_more_fuel_same_answer : forall lookup provs f f' st m, f <= f' ->
+  resolve_deep lookup provs f st m <> Fuel -> resolve_deep lookup provs f' st m = resolve_deep lookup provs f st m.
+Proof. exact resolve_deep_mono. Qed.
+Print Assumptions C12_more_fuel_same_answer.
+Theorem C12_fuel_irrelevant : forall t pf bd b builder bname binary cli_selects disabled0 f,
+  load t pf bd = Ok b -> In binary (all_modules b) -> resolver_fuel b <= f ->
+  resolve_with_fuel f b builder bname binary cli_selects disabled0 = resolve_build b builder bname binary cli_selects disabled0 /\
+  resolve_build b builder bname binary cli_selects disabled0 <> Fuel.
+Proof. exact resolve_fuel_irrelevant. Qed.
+Print Assumptions C12_fuel_irrelevant.
